@@ -18,9 +18,11 @@ MANIFEST = dict(
           "kernel-evaluated sweep establishes for every record of the regenerated table (C03_table_records_ok); "
           "interpolation laws for any strictly increasing abscissae (node, clamped left/right, between, affine mix) and "
           "their applicability to the regenerated tables; an element or isotope queried directly equals its one-atom "
-          "compound at the atom's density for any tables; None iff some atom has no SLD.  The full-strength None clause "
-          "('all atoms have tabulated data => numbers') is refuted on the faithful model with the witness RaO3 "
-          "(C03_values_iff_tabulated_refuted).  Tie: Gen/NsfTables.v, Gen/NeutronConsts.v (ENERGY_FACTOR, VELOCITY_FACTOR, "
+          "compound at the atom's density for any tables; None iff some atom has no tabulated scattering length "
+          "(C03_none_iff_missing_data; the former counterexample RaO3 has values since repair 50375e9: "
+          "C03_radium_compound_has_values).  Data consistency: every row of the regenerated Lynn & Seeger tables has "
+          "| |a| - sqrt(Re^2+Im^2) | <= 0.0125 (C03_energy_tables_modulus_consistent_partial, a sweep over Gen that a "
+          "mis-typed cell breaks) except natural Eu at 0.37 eV (C03_energy_tables_modulus_consistent_refuted; known finding).  Tie: Gen/NsfTables.v, Gen/NeutronConsts.v (ENERGY_FACTOR, VELOCITY_FACTOR, "
           "_4PI_100 as source expressions) regenerated from /repo each run; differential run of model AND spec (rigorous "
           "interval enclosures by Coq-Interval under vm_compute, 2^-30 relative to the sum of |terms|) against the "
           "implementation on compounds over all atoms with neutron data."),
